@@ -50,6 +50,9 @@ func declMenu(f int) []decl {
 		{"extend-t3-missing", &ref.TypeDef{Name: "t3", Extend: true, Rels: []ref.Relation{rel("y")}}, nil},
 		{"extend-t1-empty", &ref.TypeDef{Name: "t1", Extend: true}, nil},
 		{"extend-t1-shared", &ref.TypeDef{Name: "t1", Extend: true, Rels: []ref.Relation{rel("s")}}, nil},
+		// extension relations without a direct assignment (computed, TTU, operators only) next to an assignable one
+		{"extend-t2-computed", &ref.TypeDef{Name: "t2", Extend: true, Rels: []ref.Relation{
+			{Name: "k" + fresh, Rw: ref.C("r1")}, {Name: "u" + fresh, Rw: ref.U(ref.C("r1"), ref.TT("r1", "r1"))}, rel("v" + fresh)}}, nil},
 		{"cond-c1", nil, cond("c1")},
 		{"cond-c2", nil, cond("c2")},
 		{"type-user", &ref.TypeDef{Name: "user"}, nil},
